@@ -475,11 +475,11 @@ def grid_rc(nr_max=60, nr_min=3):
 
 
 @st.composite
-def pair_model(draw, max_pots=4, depth=2, max_tables=1, pycallables=False, min_pots=1):
+def pair_model(draw, max_pots=4, depth=2, max_tables=1, pycallables=False, min_pots=1, max_customs=2):
     """{"env", "pair": [(A, B, potdef)], "species": [...]}; with pycallables custom leaves carry a
     'has' level (Python callables offering 0/1/2 analytic derivatives; API routes only)"""
-    customs = draw(custom_forms(2, 2))
-    tables = draw(table_forms(max_tables, 10))
+    customs = draw(custom_forms(max_customs, 2)) if max_customs else []
+    tables = draw(table_forms(max_tables, 10)) if max_tables else []
     npots = draw(st.integers(min_pots, max_pots))
     species = draw(species_labels(1 if npots == 1 else 2 if npots <= 3 else 3, 4))
     allpairs = [(a, b) for i, a in enumerate(species) for b in species[i:]]
@@ -522,13 +522,13 @@ def eam_grid(nmax=24):
 
 
 @st.composite
-def eam_model(draw, kind="eam", n_min=1, n_max=4, depth=1, pycallables=False):
+def eam_model(draw, kind="eam", n_min=1, n_max=4, depth=1, pycallables=False, max_customs=1):
     """EAM ("eam"), Finnis-Sinclair ("fs") or ADP ("adp") model.
     {"kind", "env", "elements": [...] (embedding declaration order), "embed": [[A, pd]],
      "density": [[A, pd]] | "density_fs": [[A, B, pd]], "pair": [[A, B, pd]],
      "dipole"/"quadrupole": [[A, B, pd]], "species": [[label, prop, value]], "grid": {...}}
     Any subset of pairs / FS densities may be undeclared; pairs may name foreign species."""
-    customs = draw(custom_forms(1, 1))
+    customs = draw(custom_forms(max_customs, 1)) if max_customs else []
     n = draw(st.integers(n_min, n_max))
     els = draw(st.lists(st.sampled_from(ELEMENTS + INVENTED), min_size=n, max_size=n, unique=True))
     pdraw = potdef(depth, customs, [], max_ranges=2)
@@ -599,18 +599,18 @@ EAM_TARGETS = {"setfl": "eam", "lammps_eam_alloy": "eam", "DL_POLY_EAM": "eam", 
 
 
 @st.composite
-def any_model(draw, targets=None, n_min=1, n_max=3, depth=1, tables=True):
+def any_model(draw, targets=None, n_min=1, n_max=3, depth=1, tables=True, customs=True):
     """a whole potable model for any tabulation target: {"target", "kind", ...} in the shape
     vlib.anymodel.sections_of() understands (pair models carry cutoff/nr, EAM models a grid)"""
     target = draw(st.sampled_from(targets or (PAIR_TARGETS + sorted(EAM_TARGETS))))
     if target in EAM_TARGETS:
-        m = draw(eam_model(EAM_TARGETS[target], n_min, n_max, depth=depth))
+        m = draw(eam_model(EAM_TARGETS[target], n_min, n_max, depth=depth, max_customs=1 if customs else 0))
         if tables and draw(st.integers(0, 2)) == 0:
             t = draw(table_form("tab1", 8, x0=0.0))
             m["env"]["table"] = [t]
             m["pair"].append([m["elements"][0], "Tq", {"ranges": [{"m": None, "s": None, "body": {"k": "table", "name": "tab1"}}]}])
     else:
-        m = draw(pair_model(3, depth, max_tables=1 if tables else 0, min_pots=1))
+        m = draw(pair_model(3, depth, max_tables=1 if tables else 0, min_pots=1, max_customs=2 if customs else 0))
         cutoff, nr = draw(grid_rc(16))
         if target in ("DLPOLY", "DL_POLY"):
             nr = 4 * draw(st.integers(2, 5))
